@@ -174,7 +174,7 @@ package errbase
 //@   ensures result == fullNameT(typeof(err))
 
 //@ func getTypeDetails
-//@   props C17 C02 C04 C15 C11
+//@   props C17 C02 C04 C15 C11 C08
 //@   requires err != nil
 //@   ensures typeis(err, *opaqueLeaf) ==> result0 == err.(*opaqueLeaf).details.OriginalTypeName && result1 == err.(*opaqueLeaf).details.ErrorTypeMark.FamilyName && result2 == err.(*opaqueLeaf).details.ErrorTypeMark.Extension
 //@   ensures typeis(err, *opaqueLeafCauses) ==> result0 == err.(*opaqueLeafCauses).details.OriginalTypeName && result1 == err.(*opaqueLeafCauses).details.ErrorTypeMark.FamilyName && result2 == err.(*opaqueLeafCauses).details.ErrorTypeMark.Extension
@@ -183,7 +183,7 @@ package errbase
 //@   ensures (!typeis(err, *opaqueLeaf) && !typeis(err, *opaqueLeafCauses) && !typeis(err, *opaqueWrapper)) ==> result2 == ((!onlyFamily && hasMethod(typeof(err), "ErrorKeyMarker() string")) ? keyMarkerM(err) : "")
 
 //@ func GetTypeKey
-//@   props C17 C02
+//@   props C17 C02 C08
 //@   requires err != nil
 //@   ensures (!typeis(err, *opaqueLeaf) && !typeis(err, *opaqueLeafCauses) && !typeis(err, *opaqueWrapper)) ==> result == resolveKey(backwardRegistry, fullNameT(typeof(err)))
 
